@@ -1,5 +1,7 @@
 import OnlVerif.Lemmas.KernelStep
 import OnlVerif.Lemmas.KAccess
+import OnlVerif.Lemmas.CondValue
+import OnlVerif.Lemmas.CondExamples
 /-!
 # C05 — condition events fire exactly when their predicate first holds, with exact value
 
@@ -88,5 +90,366 @@ theorem cond_build (s : KState ℚ σ) (c : EvId) :
 /-! non-vacuity -/
 example : evaluate true 2 2 = true ∧ evaluate true 2 1 = false ∧ evaluate false 3 1 = true ∧ evaluate false 3 0 = false ∧
     evaluate false 0 0 = true := by decide
+
+/-! =====================================================================================================================
+## Global theorems: every program, every state reachable by `step`  (`Lemmas/Cond*.lean`)
+
+Reachability and domain are those of the "exactly once" engine (`KReach`, `Once.Inv0`, `Once.SafeRun`, DESIGN §8.2), plus
+`Cond.DomRun`: no executed `succeed()/fail()` targets a *pending condition* event (a program that triggers a condition by
+hand is outside the statement, DESIGN §3), and the operand list handed to `Condition(...)` names existing events (in
+Python one cannot hold an event that does not exist yet; in the model ids can be guessed).  Both together are
+`Cond.SafeRun`; it is decidable per run (`Cond.SafeUpTo`), automatic for programs whose text satisfies `Cond.DomProg`,
+and `Cond.hand_unsafe` shows a program outside it.  `Cond.Inv0` (the counting invariant between steps) holds in the empty
+environment and is kept by every API call made from outside (`Cond.Inv0.init`, `Cond.Inv0.outside`, `…until_event`,
+`…until_time`).
+
+`Cond.Gone rem s c` ("detached"): `c` lies under a condition whose `_build_value` has run — `_remove_check_callbacks`
+has then removed the `_check`s of `c` from its operands, so `c` can never trigger again (as in the library).
+===================================================================================================================== -/
+
+section Global
+variable (body : σ → Resume → Burst ℚ σ) (fuel : Nat)
+
+/-- **1. The counting invariant** (between two steps): for every pending, attached condition `c` over `ops`,
+`_count` is the number of operand positions whose event is processed, no processed operand has failed, the predicate
+is false on `_count`, `_check` of `c` sits in the callbacks of every unprocessed event exactly once per position at
+which that event occurs in `ops` (so not at all outside `ops`), and the operands are older than `c`. -/
+theorem cond_counting_invariant (s0 s : KState ℚ σ) (h0 : Once.Inv0 false s0) (c0 : Cond.Inv0 s0)
+    (hsafe : Cond.SafeRun body fuel s0) (hr : KReach body fuel s0 s) (c : EvId) (all : Bool) (ops : List EvId)
+    (hk : (s.ev c).kind = .cond all ops) (hu : (s.ev c).out = none) (ha : ¬ Cond.Gone [] s c) :
+    (s.ev c).count = ops.countP (fun e => s.processed e) ∧
+    (∀ e ∈ ops, s.processed e = true → ∀ x, (s.ev e).out ≠ some (.fail x)) ∧
+    evaluate all ops.length (s.ev c).count = false ∧
+    (∀ e L, (s.ev e).cbs = some L → L.count (.check c) = ops.count e) ∧
+    (∀ e ∈ ops, e < c) := by
+  obtain ⟨_, hc, _⟩ := Cond.Inv0.reach body fuel h0 c0 hsafe hr
+  obtain ⟨hops, hall, hcond⟩ := Cond.condOps_of_kind hk
+  have h1 := hc.cnt c hcond hu ha
+  have h2 := hc.nofail c hcond hu ha
+  have h3 := hc.unmet c hcond hu
+  have h4 := hc.chk_att c ha
+  have h5 := hc.older c
+  unfold Cond.nProcessed at h1
+  rw [hops] at h1 h2 h3 h4 h5
+  rw [hall] at h3
+  refine ⟨by simpa using h1, ?_, h3, h4, h5⟩
+  intro e he hp x hx
+  have := (h2 e he hp x hx).2
+  cases this
+
+/-- **1, inside a step**: after any prefix `pre` of the callbacks of the event `q.ev` being processed (`post` still to
+run), `_count` plus the `_check`s of `c` still to run is the number of processed operand positions; the only processed
+operand that may have failed is `q.ev` itself, with a `_check` of `c` still pending; the predicate is false on `_count`;
+the subscriptions are as between steps. -/
+theorem cond_counting_invariant_midstep (s0 s : KState ℚ σ) (h0 : Once.Inv0 false s0) (c0 : Cond.Inv0 s0)
+    (hsafe : Cond.SafeRun body fuel s0) (hr : KReach body fuel s0 s) (q : QEntry ℚ) (rest : List (QEntry ℚ))
+    (hq : popMin s.agenda = some (q, rest)) (pre post : List Cb) (hL : (s.ev q.ev).cbs = some (pre ++ post))
+    (c : EvId) (all : Bool) (ops : List EvId)
+    (hk : ((pre.foldl (runCb body fuel q.ev) { s := openEvent s q rest }).s.ev c).kind = .cond all ops)
+    (hu : ((pre.foldl (runCb body fuel q.ev) { s := openEvent s q rest }).s.ev c).out = none)
+    (ha : ¬ Cond.Gone post (pre.foldl (runCb body fuel q.ev) { s := openEvent s q rest }).s c) :
+    ((pre.foldl (runCb body fuel q.ev) { s := openEvent s q rest }).s.ev c).count + post.count (.check c) =
+      ops.countP (fun e => (pre.foldl (runCb body fuel q.ev) { s := openEvent s q rest }).s.processed e) ∧
+    (∀ e ∈ ops, (pre.foldl (runCb body fuel q.ev) { s := openEvent s q rest }).s.processed e = true →
+      ∀ x, ((pre.foldl (runCb body fuel q.ev) { s := openEvent s q rest }).s.ev e).out = some (.fail x) →
+        e = q.ev ∧ Cb.check c ∈ post) ∧
+    evaluate all ops.length ((pre.foldl (runCb body fuel q.ev) { s := openEvent s q rest }).s.ev c).count = false ∧
+    (∀ e L, ((pre.foldl (runCb body fuel q.ev) { s := openEvent s q rest }).s.ev e).cbs = some L →
+      L.count (.check c) = ops.count e) := by
+  obtain ⟨hi, hc, _⟩ := Cond.Inv0.reach body fuel h0 c0 hsafe hr
+  have hs1 := hsafe.1 s hr
+  have hd1 := hsafe.2 s hr
+  unfold Once.SafeStep at hs1
+  unfold Cond.DomStep at hd1
+  rw [hq] at hs1 hd1
+  simp only [hL] at hs1 hd1
+  have h1 := Once.Inv.openEvent hi q rest hq _ hL
+  have c1 : Cond.CInv (pre ++ post) q.ev (openEvent s q rest) := Cond.CInv.openEvent hc hi q rest _ hL
+  obtain ⟨_, c2, _⟩ := Cond.CInv.foldCbs_prefix body fuel pre post
+    { rem := pre ++ post, e0 := q.ev, run := none, lv := false, strict := false } { s := openEvent s q rest }
+    rfl rfl rfl rfl h1 c1 hs1 hd1
+  generalize (pre.foldl (runCb body fuel q.ev) { s := openEvent s q rest }).s = x at hk hu ha c2 ⊢
+  obtain ⟨hops, hall, hcond⟩ := Cond.condOps_of_kind hk
+  have k1 := c2.cnt c hcond hu ha
+  have k2 := c2.nofail c hcond hu ha
+  have k3 := c2.unmet c hcond hu
+  have k4 := c2.chk_att c ha
+  unfold Cond.nProcessed at k1
+  rw [hops] at k1 k2 k3 k4
+  rw [hall] at k3
+  exact ⟨k1, k2, k3, k4⟩
+
+/-- **2. A condition is triggered exactly when its predicate first holds** (between two steps).
+*Never earlier*: a triggered condition has succeeded only if its predicate holds over the processed operands, and has
+failed only if one of its processed operands failed — with exactly that exception, and that operand is defused.
+*Never later*: while an attached condition is pending, the predicate is false over the processed operands and none of
+them has failed.  (Inside a step the pending `_check`s have to be subtracted: `cond_counting_invariant_midstep`.) -/
+theorem cond_triggers_exactly_when_first_met (s0 s : KState ℚ σ) (h0 : Once.Inv0 false s0) (c0 : Cond.Inv0 s0)
+    (hsafe : Cond.SafeRun body fuel s0) (hr : KReach body fuel s0 s) (c : EvId) (all : Bool) (ops : List EvId)
+    (hk : (s.ev c).kind = .cond all ops) :
+    (∀ v, (s.ev c).out = some (.ok v) → evaluate all ops.length (ops.countP (fun e => s.processed e)) = true) ∧
+    (∀ x, (s.ev c).out = some (.fail x) →
+      ∃ e ∈ ops, s.processed e = true ∧ (s.ev e).out = some (.fail x) ∧ (s.ev e).defused = true) ∧
+    ((s.ev c).out = none → ¬ Cond.Gone [] s c →
+      evaluate all ops.length (ops.countP (fun e => s.processed e)) = false ∧
+      ∀ e ∈ ops, s.processed e = true → ∀ x, (s.ev e).out ≠ some (.fail x)) := by
+  obtain ⟨_, hc, _⟩ := Cond.Inv0.reach body fuel h0 c0 hsafe hr
+  obtain ⟨hops, hall, hcond⟩ := Cond.condOps_of_kind hk
+  refine ⟨?_, ?_, ?_⟩
+  · intro v hv
+    have := hc.met c v hcond hv
+    unfold Cond.nProcessed at this
+    rw [hops, hall] at this; exact this
+  · intro x hx
+    have := hc.failsrc c x hcond hx
+    rw [hops] at this; exact this
+  · intro hu ha
+    obtain ⟨h1, h2, h3, _, _⟩ := cond_counting_invariant body fuel s0 s h0 c0 hsafe hr c all ops hk hu ha
+    rw [h1] at h3
+    exact ⟨h3, h2⟩
+
+/-- **2, as a transition**: if a condition that exists, is pending and attached before a step is triggered after it,
+then the event processed in that step is one of its operands — a condition is triggered only by the processing of an
+operand (or inside its constructor, for operands already processed then: `Cond.mkCond_spec`). -/
+theorem cond_triggers_in_step_of_operand (s0 s s' : KState ℚ σ) (h0 : Once.Inv0 false s0) (c0 : Cond.Inv0 s0)
+    (hsafe : Cond.SafeRun body fuel s0) (hr : KReach body fuel s0 s) (hs : (step body fuel s).state? = some s')
+    (c : EvId) (all : Bool) (ops : List EvId) (hk : (s.ev c).kind = .cond all ops) (hu : (s.ev c).out = none)
+    (ha : ¬ Cond.Gone [] s c) (ht : (s'.ev c).out ≠ none) :
+    ∃ q rest, popMin s.agenda = some (q, rest) ∧ q.ev ∈ ops := by
+  obtain ⟨hi, hc, _⟩ := Cond.Inv0.reach body fuel h0 c0 hsafe hr
+  have hr' : KReach body fuel s0 s' := KReach.step hr hs
+  obtain ⟨_, hc', _⟩ := Cond.Inv0.reach body fuel h0 c0 hsafe hr'
+  have hlater := Cond.later_of_reach body fuel h0 c0 hsafe hr (KReach.step KReach.init hs)
+  obtain ⟨hops, hall, hcond⟩ := Cond.condOps_of_kind hk
+  have hclt : c < s.events.size := Once.lt_of_isCond s c hcond
+  have hk' : (s'.ev c).kind = .cond all ops := by rw [hlater.ev.kind c hclt]; exact hk
+  obtain ⟨hops', hall', hcond'⟩ := Cond.condOps_of_kind hk'
+  -- the shape of the step
+  have hs' := hs
+  unfold _root_.step at hs'
+  split at hs'
+  · cases hs'
+  · rename_i q rest hq
+    refine ⟨q, rest, hq, ?_⟩
+    by_contra hnot
+    have hL : ∃ L, (s.ev q.ev).cbs = some L := by
+      cases h : (s.ev q.ev).cbs with
+      | none => exact absurd h (hi.pop_unprocessed q rest hq)
+      | some L => exact ⟨L, rfl⟩
+    obtain ⟨L, hL⟩ := hL
+    rw [hL] at hs'
+    simp only at hs'
+    rw [closeEvent_state] at hs'
+    cases hs'
+    -- the operands are processed after the step iff they were before
+    have hun : Cond.Unproc (openEvent s q rest) (L.foldl (runCb body fuel q.ev) { s := openEvent s q rest }).s :=
+      Cond.Unproc.krel.foldCbs body fuel q.ev L { s := openEvent s q rest }
+    have hsame : ∀ e ∈ ops, (L.foldl (runCb body fuel q.ev) { s := openEvent s q rest }).s.processed e = s.processed e := by
+      intro e he
+      have hne : e ≠ q.ev := fun h => hnot (h ▸ he)
+      have helt : e < s.events.size := hc.op_lt (by rw [hops]; exact he)
+      apply Cond.processed_congr
+      constructor
+      · intro hn
+        by_contra hcon
+        refine hun e ?_ hn
+        rw [Cond.ev_openEvent, if_neg (fun hh => hne hh.1)]; exact hcon
+      · intro hn; exact hlater.ev.processed e helt hn
+    generalize (L.foldl (runCb body fuel q.ev) { s := openEvent s q rest }).s = s' at ht hc' hlater hk' hops' hall' hcond' hsame
+    have hcnt : ops.countP (fun e => s'.processed e) = ops.countP (fun e => s.processed e) :=
+      List.countP_congr (fun e he => by rw [hsame e he])
+    obtain ⟨_, _, hlate⟩ := cond_triggers_exactly_when_first_met body fuel s0 s h0 c0 hsafe hr c all ops hk
+    obtain ⟨hfalse, hnofail⟩ := hlate hu ha
+    cases ho : (s'.ev c).out with
+    | none => exact ht ho
+    | some o =>
+      cases o with
+      | ok v =>
+        have := hc'.met c v hcond' ho
+        unfold Cond.nProcessed at this
+        rw [hops', hall', hcnt, hfalse] at this
+        cases this
+      | fail x =>
+        obtain ⟨e, he, hp, hx, _⟩ := hc'.failsrc c x hcond' ho
+        rw [hops'] at he
+        rw [hsame e he] at hp
+        have helt : e < s.events.size := hc.op_lt (by rw [hops]; exact he)
+        have htrig := hi.c.done_trig e helt (Cond.processed_iff.mp hp)
+        cases hoe : (s.ev e).out with
+        | none => exact htrig hoe
+        | some oe =>
+          rcases hlater.out e oe hoe with h | ⟨_, h2, _⟩
+          · rw [hx] at h; cases h
+            exact hnofail e he hp x hoe
+          · exact h2 (Cond.processed_iff.mp hp)
+
+/-- **2, only once**: from the moment a condition is triggered its outcome never changes again along the run — except
+that the step which processes a condition that has succeeded replaces its value by the `ConditionValue` — and `_count`
+stays what it was: later operands, also failing ones, change nothing.  (That a triggered condition is scheduled exactly
+once and processed exactly once is `C02.scheduled_at_most_once` / `processed_at_most_once`, which cover condition events.) -/
+theorem cond_outcome_frozen (s0 s s' : KState ℚ σ) (h0 : Once.Inv0 false s0) (c0 : Cond.Inv0 s0)
+    (hsafe : Cond.SafeRun body fuel s0) (hr : KReach body fuel s0 s) (hr2 : KReach body fuel s s') (c : EvId) (o : Outcome)
+    (ho : (s.ev c).out = some o) :
+    ((s'.ev c).out = some o ∨
+      ((s.ev c).cbs ≠ none ∧ (s'.ev c).cbs = none ∧ ∃ v w, o = .ok v ∧ (s'.ev c).out = some (.ok w))) ∧
+    (s'.ev c).count = (s.ev c).count := by
+  have hl := Cond.later_of_reach body fuel h0 c0 hsafe hr hr2
+  refine ⟨?_, hl.count c (by rw [ho]; simp)⟩
+  rcases hl.out c o ho with h | ⟨_, h2, h3, h4⟩
+  · exact Or.inl h
+  · exact Or.inr ⟨h2, h3, h4⟩
+
+/-- **2, inertness lifted to a step**: when an event that has failed is processed and all its callbacks are `_check`s of
+conditions that are already triggered, the whole callback loop changes nothing — none of these conditions defuses the
+failure — and `step()` raises the event's exception (C02 `failure_not_lost`). -/
+theorem late_failure_not_defused (s : KState ℚ σ) (q : QEntry ℚ) (rest : List (QEntry ℚ)) (L : List Cb) (x : Exc)
+    (hq : popMin s.agenda = some (q, rest)) (hL : (s.ev q.ev).cbs = some L)
+    (hfail : (s.ev q.ev).out = some (.fail x)) (hnd : (s.ev q.ev).defused = false)
+    (hchk : ∀ cb ∈ L, ∃ c, cb = .check c ∧ c ≠ q.ev ∧ s.triggered c = true) :
+    step body fuel s = .crash x (openEvent s q rest) := by
+  have hlt : q.ev < s.events.size := Once.lt_of_cbs_some s _ L hL
+  have hopen : ∀ y, (openEvent s q rest).ev y = if y = q.ev then { s.ev q.ev with cbs := none } else s.ev y := by
+    intro y; rw [Cond.ev_openEvent]
+    by_cases h : y = q.ev
+    · rw [if_pos ⟨h, hlt⟩, if_pos h]
+    · rw [if_neg (fun hh => h hh.1), if_neg h]
+  have hfold : ∀ (l : List Cb), (∀ cb ∈ l, ∃ c, cb = .check c ∧ c ≠ q.ev ∧ s.triggered c = true) →
+      l.foldl (runCb body fuel q.ev) { s := openEvent s q rest } = { s := openEvent s q rest } := by
+    intro l
+    induction l with
+    | nil => intro _; rfl
+    | cons cb l ih =>
+      intro h
+      obtain ⟨c, hcb, hne, ht⟩ := h cb List.mem_cons_self
+      have ht' : (openEvent s q rest).triggered c = true := by
+        unfold KState.triggered at ht ⊢
+        rw [hopen, if_neg hne]; exact ht
+      simp only [List.foldl_cons]
+      have : runCb body fuel q.ev { s := openEvent s q rest } cb = { s := openEvent s q rest } := by
+        rw [hcb]
+        simp only [runCb, cond_after_trigger_inert _ c q.ev ht']
+      rw [this]
+      exact ih (fun cb' h' => h cb' (List.mem_cons_of_mem _ h'))
+  unfold _root_.step
+  rw [hq]
+  simp only [hL]
+  rw [hfold L hchk]
+  unfold closeEvent
+  simp only
+  rw [hopen, if_pos rfl]
+  simp only [hfail, hnd, Bool.false_eq_true, if_false]
+
+/-- **3. The value**: the step that processes a condition `c` (with operands) which has succeeded leaves
+`ConditionValue(populate …)` in its `_value`, computed over the state before the step (`c` is not its own leaf), and
+afterwards no `_check` of `c` **or of any condition nested below `c`** is left in any callback list: nothing of `c`
+will ever be called again. -/
+theorem cond_value_when_processed (s0 s s' : KState ℚ σ) (h0 : Once.Inv0 false s0) (c0 : Cond.Inv0 s0)
+    (hsafe : Cond.SafeRun body fuel s0) (hr : KReach body fuel s0 s) (q : QEntry ℚ) (rest : List (QEntry ℚ))
+    (hq : popMin s.agenda = some (q, rest)) (all : Bool) (ops : List EvId) (hk : (s.ev q.ev).kind = .cond all ops)
+    (hs : (step body fuel s).state? = some s') :
+    (∀ v, ops ≠ [] → (s.ev q.ev).out = some (.ok v) →
+      (s'.ev q.ev).out = some (.ok (.cv (populate (q.ev + 1) s q.ev)))) ∧
+    (∀ x, (s.ev q.ev).out = some (.fail x) → (s'.ev q.ev).out = some (.fail x)) ∧
+    (∀ d, Cond.Under s d q.ev → ∀ e L, (s'.ev e).cbs = some L → Cb.check d ∉ L) := by
+  obtain ⟨hi, hc, _⟩ := Cond.Inv0.reach body fuel h0 c0 hsafe hr
+  obtain ⟨_, hc', _⟩ := Cond.Inv0.reach body fuel h0 c0 hsafe (KReach.step hr hs)
+  have hlater := Cond.later_of_reach body fuel h0 c0 hsafe hr (KReach.step KReach.init hs)
+  obtain ⟨hops, hall, hcond⟩ := Cond.condOps_of_kind hk
+  have hlt : q.ev < s.events.size := Once.lt_of_isCond s _ hcond
+  refine ⟨?_, ?_, ?_⟩
+  · intro v hne hok
+    exact Cond.step_builds_value body fuel hi hc (hsafe.1 s hr) (hsafe.2 s hr) q rest hq (by rw [hops]; exact hne) v hok hs
+  · intro x hx
+    rcases hlater.out q.ev _ hx with h | ⟨_, _, _, v, w, hv, _⟩
+    · exact h
+    · cases hv
+  · intro d hd
+    have hproc := (Once.step_processes body fuel s s' q rest hq hlt hs).1
+    have hb : Cond.Built [] s' q.ev :=
+      ⟨by rw [Once.isCond_congr (hlater.ev.kind q.ev hlt)]; exact hcond, hproc, by simp⟩
+    exact hc'.chk_gone d ⟨q.ev, Cond.Under.evMono hlater.ev hd, hb⟩
+
+/-- **3, what the value contains**: `populate` is the flattening recursion over the operand list — a nested condition
+contributes its own processed leaves in place, a plain operand contributes itself if it is processed — and its members
+are exactly the processed leaves below `c` (events that are not conditions, nested at any depth). -/
+theorem cond_value_is_processed_leaves (s0 s : KState ℚ σ) (h0 : Once.Inv0 false s0) (c0 : Cond.Inv0 s0)
+    (hsafe : Cond.SafeRun body fuel s0) (hr : KReach body fuel s0 s) (c : EvId) :
+    populate (c + 1) s c = ((condOps s c).2.flatMap fun e =>
+      if isCond s e then populate (e + 1) s e else if s.processed e then [e] else []) ∧
+    (∀ x, x ∈ populate (c + 1) s c ↔ (Cond.Leaf s x c ∧ s.processed x = true)) ∧
+    (∀ fuel', c < fuel' → populate fuel' s c = populate (c + 1) s c) := by
+  obtain ⟨_, hc, _⟩ := Cond.Inv0.reach body fuel h0 c0 hsafe hr
+  exact ⟨Cond.populate_spec s hc.older c, Cond.mem_populate s hc.older c, fun f hf => Cond.populate_fuel s hc.older f c hf⟩
+
+/-- **3/4. Detached for good**: in every reachable state, nothing of a detached event is subscribed anywhere; a detached
+condition that is still pending stays pending in every later state of the run; and detached stays detached. -/
+theorem detached_never_triggers (s0 s s' : KState ℚ σ) (h0 : Once.Inv0 false s0) (c0 : Cond.Inv0 s0)
+    (hsafe : Cond.SafeRun body fuel s0) (hr : KReach body fuel s0 s) (hr2 : KReach body fuel s s') (d : EvId)
+    (hg : Cond.Gone [] s d) :
+    (∀ e L, (s.ev e).cbs = some L → Cb.check d ∉ L) ∧ Cond.Gone [] s' d ∧
+    (isCond s d = true → (s.ev d).out = none → (s'.ev d).out = none) := by
+  obtain ⟨_, hc, _⟩ := Cond.Inv0.reach body fuel h0 c0 hsafe hr
+  have hl := Cond.later_of_reach body fuel h0 c0 hsafe hr hr2
+  exact ⟨hc.chk_gone d hg, hl.gone d hg, fun h1 h2 => hl.frozen d h1 h2 hg⟩
+
+/-- **4. Nesting, depth 2**: for `outer = Condition(allO, [inner, x])` with `inner = Condition(allI, [a, b])` over plain
+events, in every reachable state
+* the inner and the outer condition each obey clause 2 with `inner` counted like any other operand of `outer`
+  (`inner` is an operand "processed" exactly when the inner condition event has been processed);
+* the value the outer condition gets is `[a | a processed] ++ [b | b processed] ++ [x | x processed]`, whether or not
+  the inner condition has been triggered;
+* once the outer condition has been processed, no `_check` of the outer **or of the inner** condition is subscribed
+  anywhere (the inner one is detached), and an inner condition that is still pending then stays pending for ever. -/
+theorem nested_depth2 (s0 s : KState ℚ σ) (h0 : Once.Inv0 false s0) (c0 : Cond.Inv0 s0)
+    (hsafe : Cond.SafeRun body fuel s0) (hr : KReach body fuel s0 s) (outer inner a b x : EvId) (allO allI : Bool)
+    (hko : (s.ev outer).kind = .cond allO [inner, x]) (hki : (s.ev inner).kind = .cond allI [a, b])
+    (ha : isCond s a = false) (hb : isCond s b = false) (hx : isCond s x = false) :
+    -- triggering, inner
+    ((s.ev inner).out = none → ¬ Cond.Gone [] s inner →
+      evaluate allI 2 ([a, b].countP (fun e => s.processed e)) = false ∧
+      ∀ e ∈ [a, b], s.processed e = true → ∀ z, (s.ev e).out ≠ some (.fail z)) ∧
+    (∀ v, (s.ev inner).out = some (.ok v) → evaluate allI 2 ([a, b].countP (fun e => s.processed e)) = true) ∧
+    -- triggering, outer
+    ((s.ev outer).out = none → ¬ Cond.Gone [] s outer →
+      evaluate allO 2 ([inner, x].countP (fun e => s.processed e)) = false ∧
+      ∀ e ∈ [inner, x], s.processed e = true → ∀ z, (s.ev e).out ≠ some (.fail z)) ∧
+    (∀ v, (s.ev outer).out = some (.ok v) → evaluate allO 2 ([inner, x].countP (fun e => s.processed e)) = true) ∧
+    (∀ z, (s.ev outer).out = some (.fail z) →
+      ∃ e ∈ [inner, x], s.processed e = true ∧ (s.ev e).out = some (.fail z) ∧ (s.ev e).defused = true) ∧
+    -- value
+    populate (outer + 1) s outer =
+      (if s.processed a then [a] else []) ++ (if s.processed b then [b] else []) ++ (if s.processed x then [x] else []) ∧
+    -- the outer condition processed: the inner one is detached
+    ((s.ev outer).cbs = none →
+      (∀ e L, (s.ev e).cbs = some L → Cb.check outer ∉ L ∧ Cb.check inner ∉ L) ∧
+      ((s.ev inner).out = none → ∀ s', KReach body fuel s s' → (s'.ev inner).out = none)) := by
+  obtain ⟨_, hc, _⟩ := Cond.Inv0.reach body fuel h0 c0 hsafe hr
+  obtain ⟨hopsO, _, hcondO⟩ := Cond.condOps_of_kind hko
+  obtain ⟨hopsI, _, hcondI⟩ := Cond.condOps_of_kind hki
+  obtain ⟨i1, i2, i3⟩ := cond_triggers_exactly_when_first_met body fuel s0 s h0 c0 hsafe hr inner allI [a, b] hki
+  obtain ⟨o1, o2, o3⟩ := cond_triggers_exactly_when_first_met body fuel s0 s h0 c0 hsafe hr outer allO [inner, x] hko
+  refine ⟨i3, i1, o3, o1, o2, ?_, ?_⟩
+  · -- the value: flatten twice
+    have hO := Cond.populate_spec s hc.older outer
+    have hI := Cond.populate_spec s hc.older inner
+    unfold Cond.ops at hopsO hopsI
+    rw [hO]
+    show (condOps s outer).2.flatMap _ = _
+    rw [hopsO]
+    simp only [List.flatMap_cons, List.flatMap_nil, hcondI, hx, if_true, Bool.false_eq_true, if_false, List.append_nil]
+    rw [hI]
+    show (condOps s inner).2.flatMap _ ++ _ = _
+    rw [hopsI]
+    simp only [List.flatMap_cons, List.flatMap_nil, ha, hb, Bool.false_eq_true, if_false, List.append_nil]
+  · intro hproc
+    have hbuilt : Cond.Built [] s outer := ⟨hcondO, hproc, by simp⟩
+    have hgO : Cond.Gone [] s outer := ⟨outer, Cond.Under.self _, hbuilt⟩
+    have hgI : Cond.Gone [] s inner :=
+      ⟨outer, Cond.Under.nest (by rw [hopsO]; simp) (Cond.Under.self _), hbuilt⟩
+    refine ⟨fun e L hL => ⟨hc.chk_gone outer hgO e L hL, hc.chk_gone inner hgI e L hL⟩, ?_⟩
+    intro hu s' hr2
+    exact (detached_never_triggers body fuel s0 s s' h0 c0 hsafe hr hr2 inner hgI).2.2 hcondI hu
+
+end Global
 
 end C05
